@@ -246,8 +246,8 @@ def run_rules_dispatch(prog, rr):
             inst = Obj(cls_name, name="R", _native={"run": (lambda res: (lambda *x: res))(result)})
 
             def recorder(*args, _seen=seen, _ctx=ctx, **kw):
-                dep = args[-1] if args else kw.get(params[2])
-                _seen.append((dep, args[0] if len(args) > 1 else kw.get(params[1]), _ctx.tkn_scope,
+                dep = args[1] if len(args) > 1 else kw.get(params[2])
+                _seen.append((dep, args[0] if args else kw.get(params[1]), _ctx.tkn_scope,
                               _ctx.history[-1] if _ctx.history else None))
                 return (False, 0)
             ev = Evaluator(methods, natives={("Registry", "run_rules"): recorder})
